@@ -69,6 +69,7 @@ impl Driver for HDriver {
         // consecutive polls without the run queue ever draining
         let mut busy: u64 = 0;
         loop {
+            crate::pool::tick();
             match rt.poll() {
                 PollResult::Ready => return Ok(()),
                 PollResult::PollAgain => {
